@@ -126,6 +126,15 @@ func runC13(c *CaseCtx) (res CaseResult) {
 		if r.Intn(3) == 0 {
 			h.Sub = pick(r, []string{"x", "y"})
 		}
+		if c.Idx%11 == 5 {
+			// free-form labels that look like formatting verbs
+			if h.Name != "" {
+				h.Name += "%d"
+			}
+			if h.Sub != "" {
+				h.Sub = "50%s" + h.Sub
+			}
+		}
 		hop = append(hop, h)
 	}
 	for _, h := range hop {
